@@ -25,7 +25,7 @@ class Prop(BaseProp):
     LEVEL = "exploration"
     RULE = ("trees and single files with generated module contents; reference = fresh-interpreter CLI run; variants: "
             "repeat in a fresh interpreter, PYTHONHASHSEED in {1,4242,random}, other working directory (absolute and "
-            "relative input path), whole input moved to another absolute location, injected directory-listing "
+            "relative input path), whole input moved to another absolute location, input reached through a symbolic link of the same name, recursive and non-recursive runs incl. trees without a CMake file at the top, injected directory-listing "
             "permutations, histories (other inputs documented before/after in the same process; one invocation "
             "documenting extra files before and after), tree plus extra files. Every generated file must be "
             "byte-identical to the reference (index pages exempt only in the 'extra files' variant). Distinct = tree "
@@ -49,13 +49,22 @@ class Prop(BaseProp):
         res = CaseResult()
         single = idx % 4 == 3
         prefix = rng.choice([None, None, "Pfx"])
-        recursive = True
+        recursive = rng.random() < 0.75
+        topless = (not single) and rng.random() < 0.25     # the input directory itself holds no CMake file
         with runner.sandbox() as sb:
             home = os.path.join(sb, "home")
             os.makedirs(os.path.join(home, ".config", "cminx"))
             tree = gen_tree(rng, max_depth=rng.choice([1, 2, 3]), p_sub=0.9, noncmake=False, mixed_case=False, case_twins=True)
             for f in list(tree.files):
                 tree.files[f] = self.contents(rng, f)
+            if topless:
+                for f in tree.files_of(""):
+                    del tree.files[f]
+                if not tree.files:
+                    tree.dirs.add("only_sub")
+                    tree.files["only_sub/o.cmake"] = self.contents(rng, "o")
+                tree.files["notes.txt"] = "no CMake file at the top\n"
+                res.count("trees_without_cmake_file_at_the_top")
             loc1 = os.path.join(sb, "loc1", "proj")
             tree.write(loc1)
             cfg = os.path.join(sb, "cfg", "s.yaml")
@@ -85,8 +94,9 @@ class Prop(BaseProp):
                 flags = common
             else:
                 target = lambda root: root                                # noqa: E731
-                flags = common + ["-r"]
-            res.sig = sig_hash([tree.shape(), single, prefix])
+                flags = common + (["-r"] if recursive else [])
+                res.see("directory_modes", ("recursive" if recursive else "non-recursive") + ("+no-cmake-at-top" if topless else ""))
+            res.sig = sig_hash([tree.shape(), single, prefix, recursive])
             wit = {"single": single, "flags": flags, "tree_files": sorted(tree.files)}
             nvar = [0]
 
@@ -116,7 +126,7 @@ class Prop(BaseProp):
                 res.violate("reference-run-failed", se[-300:], wit)
                 return res
             ref = read_tree(out_dir("ref"))
-            res.nontrivial = len([k for k in ref if not k.endswith("index.rst")]) >= 2
+            res.nontrivial = len([k for k in ref if not k.endswith("index.rst")]) >= 2 or (topless and not recursive)
             # (a)+(e) fresh interpreters with other hash seeds, other cwd, relative input path
             for hs in (["1", "random"] if self.tier == "quick" else ["0", "1", "4242", "random"]):
                 cwd = rng.choice([sb, os.path.join(sb, "loc1"), home])
@@ -151,6 +161,26 @@ class Prop(BaseProp):
                 compare("moved", read_tree(out_dir("moved")), ref)
             else:
                 res.violate("variant-run-failed:moved", str(o.exc)[:200], wit)
+            # (c2) the input is reached through a symbolic link whose name is the input's name: the same contents at the same
+            #      relative paths below an input path with the same name
+            store = os.path.join(sb, "Q_store", "Q_checkout_0042")
+            shutil.copytree(loc1, store)
+            os.makedirs(os.path.join(sb, "Q_site"))
+            if single:
+                d5 = os.path.join(sb, "Q_site", os.path.dirname(rel_in_fixed))
+                os.makedirs(d5, exist_ok=True)
+                link_in = os.path.join(d5, os.path.basename(rel_in_fixed))
+                blob = os.path.join(sb, "Q_store", "Q_blob_77.cmake")
+                shutil.copy(target(loc1), blob)
+                os.symlink(blob, link_in)
+            else:
+                link_in = os.path.join(sb, "Q_site", "proj")
+                os.symlink(store, link_in)
+            o = runner.run_main([link_in, "-o", out_dir("linked")] + flags, cwd=home, home=home)
+            if o.ok:
+                compare("input-reached-through-symlink", read_tree(out_dir("linked")), ref)
+            else:
+                res.violate("variant-run-failed:linked", str(o.exc)[:200], wit)
             # (d) listing permutations
             for k in range(2 if self.tier == "quick" else 4):
                 name = f"listing-order#{k}"
